@@ -14,7 +14,7 @@ ASSUMPTIONS = ["truncated forms, the local-zone configuration, expanded digits o
                "split lemma of pyvc/textlex.py (prose induction; hypotheses machine-checked)",
                "digit fields are ASCII digits; float('0.'+digits) is digits/10^n (floats as reals)"]
 LEVEL_TEXT = "Complete and reduced forms under four parser configurations and dump_as_parsed of non-decimal forms: proof (real parser/dumper executed on symbolic texts); truncated forms, local-zone configuration, decimal dump_as_parsed: bounded grid. Hence other."
-LEVEL_NOTE = "see DESIGN section 5/C07"
+LEVEL_NOTE = "see DESIGN.md A.4 (as built) and section 5/C07 (plan)"
 
 
 def custom(tier, seed, repo):
